@@ -361,7 +361,8 @@ def snapshot_everything(p) -> dict:
 def new_parent(solvers):
     from nucs.solvers.multiprocessing_solver import MultiprocessingSolver
 
-    return MultiprocessingSolver(solvers, log_level="ERROR")
+    with mpsim.detached():  # a queue created by the constructor is simulated too, and lives as long as the instance
+        return MultiprocessingSolver(solvers, log_level="ERROR")
 
 
 def run_parent(ch, solvers, op, plan, run_worker, cache, parent=None, abandon_after=None) -> dict:
@@ -371,6 +372,7 @@ def run_parent(ch, solvers, op, plan, run_worker, cache, parent=None, abandon_af
     if parent is None:
         parent = new_parent(solvers)
     res = {"yielded": [], "result": None, "outcome": "returned", "error": None, "stats": None, "stats_error": None}
+    mpsim.adopt(world, parent)
     try:
         with mpsim.patched(world):
             if op[0] == "solve":
